@@ -64,7 +64,15 @@ def classify(op, impl, verdict):
     m = re.search(r" rules-only-differs=(\w+) lowerings-only-differs=(\w+)", verdict)
     rules, lows = sorted(_names(impl, "rules")), _names(impl, "lowerings")
     if m and m.group(1) == "true" and m.group(2) == "false":
-        return "rule:" + ("+".join(rules) or "none")
+        cls = "rule:" + ("+".join(rules) or "none")
+        if "InboundTraversalReversal" in rules:
+            # the reversal rule changes the drive direction of a pattern; whether a PATH of that pattern is observed, and how it reaches the
+            # projection, is the enabling shape (a registered finding about a renamed path must not cover a path that is returned directly)
+            import cyshape
+            feats = cyshape.features(_query(op))
+            if "path-variable-renamed-in-with" in feats:
+                cls += ":path-variable-renamed-in-with"
+        return cls
     q = _query(op).lower()
     for name in _PRIORITY:
         if name in lows:
@@ -184,7 +192,8 @@ SPEC = {
     "panic_is_violation": False,
     "rule": "cases = one hand-written query per rewrite rule / lowering + FOCUSED FAMILIES (harness/focused.go: variable-length step + fixed hops with every subset of the suffix nodes "
             "already bound; aggregate-only RETURN incl. collect / size(collect()) with LIMIT and no ORDER BY; the aggregate-traversal-count shape with every range form incl. *0..; "
-            "collect(node) AS xs used under IN with every way of reading xs afterwards; bindings read by later clauses) + FRAGMENT queries (the generators of C01's tie: stage S1, stage S2b (one hop with WHERE), stage S2c (chains), and `MATCH (n[:K...]) RETURN count(n)`; for these the driver also "
+            "collect(node) AS xs used under IN with every way of reading xs afterwards; bindings read by later clauses; named path + pattern predicate over reversible patterns with the path / "
+            "nodes(p) / relationships(p) observed directly and through WITH; string predicates with backslash / % / _ / quote literals) + FRAGMENT queries (the generators of C01's tie: stage S1, stage S2b (one hop with WHERE), stage S2c (chains), and `MATCH (n[:K...]) RETURN count(n)`; for these the driver also "
             "compares both REAL statements with the model variants trVariant of opt_equiv (either join order of a hop) — outcome frag-tie, a difference is a VIOLATION even when the evaluations agree) + every Cypher text of the repository corpora the translator accepts + structured random queries "
             "(levels 1-5, splitmix64(VERIF_SEED)); each is translated twice by the REAL translator: `Translate` (optimised) and the verif-tagged hook `TranslateUnoptimized` "
             "(hooks/C02.patch: no rewrite rule, no lowering plan, no fast path), plus rules-only / lowerings-only variants to attribute a difference. Both statements are evaluated by "
